@@ -1030,6 +1030,12 @@ def run_conv(spec, rec, rng, pintload, pint, m):
                     ({"degree_Celsius": 1, "meter": 1}, {"degree_Fahrenheit": 1, "meter": 1}),
                     ({"degree_Celsius": 2}, {"kelvin": 2}),
                     ({"degree_Fahrenheit": -1}, {"kelvin": -1}),
+                    # offset unit to ANOTHER offset unit at the same negative / fractional / higher power
+                    ({"degree_Celsius": -1}, {"degree_Fahrenheit": -1}),
+                    ({"degree_Fahrenheit": -1}, {"degree_Celsius": -1}),
+                    ({"degree_Celsius": -2}, {"degree_Reaumur": -2}),
+                    ({"degree_Celsius": 2}, {"degree_Fahrenheit": 2}),
+                    ({"degree_Celsius": F(1, 2)}, {"degree_Fahrenheit": F(1, 2)}),
                     ({"degree_Celsius": 1, "degree_Fahrenheit": 1}, {"kelvin": 2}),
                     ({"degree_Celsius": 1}, {"meter": 1}),
                     ({"degree_Celsius": 1}, {}),
